@@ -121,4 +121,13 @@ Norm(S, x) == IF x >= 1 /\ x <= Len(S) THEN x ELSE 0
 MovePos(S, pos, mv) == IF pos = 0 THEN 0 ELSE Norm(S, IF mv = "F" THEN pos + 1 ELSE pos - 1)
 At(S, pos) == IF pos = 0 THEN <<"none">> ELSE <<"entry", S[pos][1], S[pos][2]>>
 From(S, p) == SelectSeq(S, LAMBDA e: e[1] >= p)
+
+\* a recorded walk w = [start, p, moves]: the Get results a sorted list would give, as <<k, v>> (<<0, 0>> = no entry)
+Take(sq, n) == SubSeq(sq, 1, IF n > Len(sq) THEN Len(sq) ELSE n)
+G(x) == IF x[1] = "none" THEN <<0, 0>> ELSE IF x[1] = "panic" THEN <<-1, -1>> ELSE <<x[2], x[3]>>
+StartPos(S, w) == IF w.start = "min" THEN Norm(S, 1) ELSE IF w.start = "max" THEN Norm(S, Len(S)) ELSE CeilPos(S, w.p)
+RECURSIVE PosSeq(_, _, _, _)
+PosSeq(S, pos, moves, j) == IF j > Len(moves) THEN <<>> ELSE LET np == MovePos(S, pos, moves[j]) IN <<np>> \o PosSeq(S, np, moves, j + 1)
+Expected(S, w) == LET p0 == StartPos(S, w) IN [j \in 1..Len(w.moves)+1 |-> G(At(S, (<<p0>> \o PosSeq(S, p0, w.moves, 1))[j]))]
+
 =============================================================================
